@@ -221,25 +221,44 @@ def is_actor_root(fx, b, r, actor_idx, depth=0, _seen=None):
 
 def find_loops(fx):
     """loop coroutines: call Actor::started and (themselves, in nested closures or in local helpers) dequeue from the mailbox"""
-    out = []
+    cache = fx.__dict__.setdefault("_find_loops", {})
+    if "v" in cache:
+        return list(cache["v"])
+    def running_family(f, depth=2):
+        """what runs as part of coroutine f: its nested closures, the bodies of the crate-local async fns it awaits, the
+        synchronous helpers it calls — but not coroutines that a synchronous helper merely *creates* (`create_loop` builds
+        the loop future, it does not run it)"""
+        out_ = [f] + [d for d in fx.descendants(f["def"])]
+        if depth <= 0:
+            return out_
+        for g in list(out_):
+            for _bi, t in Body(g).normal_calls():
+                h = fx.callee_fn(t)
+                if h is None or h["kind"] not in ("fn", "assoc_fn") or h.get("impl_trait"):
+                    continue
+                if h.get("is_async"):
+                    for c in fx.children_of(h["def"]):
+                        if c["kind"] == "coroutine" and c not in out_:
+                            out_.extend(x for x in running_family(c, depth - 1) if x not in out_)
+                elif h not in out_:
+                    out_.append(h)
+                    out_.extend(d for d in fx.descendants(h["def"]) if d["kind"] == "closure" and d not in out_)
+        return out_
+    cands = []
     for f in fx.d["fns"]:
         if f["kind"] != "coroutine":
             continue
-        b = Body(f)
-        calls = [t for _, t in b.normal_calls()]
-        if not any(trait_method(T_ACTOR, "started")(t) for t in calls):
-            continue
-        bodies = loop_family(fx, f)
-        has_next = False
-        for g in bodies:
-            gb = Body(g)
-            if any(is_mailbox_next(t) for _, t in gb.normal_calls()):
-                has_next = True
-        if not has_next:
+        bodies = running_family(f)
+        calls = [t for g in bodies for _, t in Body(g).normal_calls()]
+        # started, the dequeue and (for a stream loop) the item handler may each sit in a helper the loop awaits
+        if not any(trait_method(T_ACTOR, "started")(t) for t in calls) or not any(is_mailbox_next(t) for t in calls):
             continue
         is_stream = any(trait_method(T_SH, "handle")(t) for t in calls)
-        out.append((f, "stream" if is_stream else "plain"))
-    return out
+        cands.append((f, "stream" if is_stream else "plain", {g["def"] for g in bodies}))
+    # the loop is the outermost such coroutine (a helper that contains both is part of the loop that awaits it)
+    out = [(f, k) for f, k, _fam in cands if not any(f["def"] in fam2 and f2 is not f for f2, _k2, fam2 in cands)]
+    cache["v"] = out
+    return list(out)
 
 
 def payload_ctors(fx):
@@ -284,7 +303,8 @@ def maker_params(fx, what="actor", kinds=None):
     for f, k in find_loops(fx):
         if kinds and k not in kinds:
             continue
-        b = Body(f)
+        import inline
+        b = Body(inline.inlined(fx, f, inline.not_public))  # `start_actor(&mut actor, ctx).await` calls started for the loop
         ups = set()
         if what == "actor":
             for _bi, t in b.normal_calls():
